@@ -205,6 +205,11 @@ class Gen(object):
             # before PEP 701 a string inside an f-string expression cannot reuse the quote or hold a backslash;
             # ast.unparse of the 3.12 host would spell it the 3.12 way. Keep nested constants numeric there.
             return ast.Constant(value=self.choice([0, 1, 2, 10, 255, 1.5, True, None, 1000]))
+        if (self.cfg.hoist_dense and self.p(0.08)) or self.p(0.02):
+            # literal arithmetic that folds to a hoistable constant (True / False): folding runs before hoisting
+            a, b = self.choice([True, False]), self.choice([True, False])
+            self.features.add('foldable_bool_arith')
+            return ast.BinOp(left=ast.Constant(value=a), op=self.choice([ast.BitOr, ast.BitAnd, ast.BitXor])(), right=ast.Constant(value=b))
         if self.cfg.hoist_dense or (self.literal_pool is not None and self.p(0.5)):
             if self.literal_pool is None:
                 self.literal_pool = self.make_pool()
